@@ -19,10 +19,10 @@ open MediaSan MediaSan.Mp4 MediaSan.Generated
 /-- When a rewrite is planned, (metadata length incl. padding) − media offset = the displacement applied
     (0 when none), padding is 0 or a whole `free` box of 8 … 2^32−9 bytes, and a displacement fits i32 and
     is never combined with padding. -/
-theorem C01_plan_shift (ml off pad : Nat) (disp : Option Int)
-    (h : planRewrite ml off = .ok (pad, disp)) :
+theorem C01_plan_shift (mp ml off pad : Nat) (disp : Option Int)
+    (h : planRewrite mp ml off = .ok (pad, disp)) :
     ((ml + pad : Nat) : Int) - (off : Int) = disp.getD 0 ∧
-    (pad = 0 ∨ (8 ≤ pad ∧ pad ≤ 4294967287)) ∧
+    (pad = 0 ∨ (8 ≤ pad ∧ pad ≤ 4294967287 ∧ pad ≤ mp)) ∧
     (∀ d, disp = some d → pad = 0 ∧ d ≠ 0 ∧ -2147483648 ≤ d ∧ d ≤ 2147483647) := by
   unfold planRewrite at h
   dsimp only at h
@@ -40,7 +40,7 @@ theorem C01_plan_shift (ml off pad : Nat) (disp : Option Int)
       · rename_i hpad
         simp only [Except.ok.injEq, Prod.mk.injEq] at h
         obtain ⟨rfl, rfl⟩ := h
-        refine ⟨by simp; omega, Or.inr ⟨by omega, by omega⟩, by intro d hd; simp at hd⟩
+        refine ⟨by simp; omega, Or.inr ⟨by omega, by omega, by omega⟩, by intro d hd; simp at hd⟩
       · split at h
         · rename_i hi32
           simp only [Except.ok.injEq, Prod.mk.injEq] at h
@@ -63,11 +63,12 @@ theorem C01_plan_shift (ml off pad : Nat) (disp : Option Int)
       refine ⟨rfl, by omega, by omega, by omega⟩
     · simp at h
 
-/-- The rewrite is refused (UnsupportedBoxLayout) exactly when no `free` box fits the gap and the shift
-    does not fit a signed 32-bit value. -/
-theorem C01_plan_refused (ml off : Nat) :
-    (∃ e, planRewrite ml off = .error e) ↔
-      ((ml ≤ off ∧ 4294967287 < off - ml) ∨ (off < ml ∧ 2147483647 < ml - off)) := by
+/-- The rewrite is refused (UnsupportedBoxLayout) exactly when no `free` box fits the gap (or it would exceed the
+    configured metadata limit `mp`) and the shift does not fit a signed 32-bit value. -/
+theorem C01_plan_refused (mp ml off : Nat) :
+    (∃ e, planRewrite mp ml off = .error e) ↔
+      ((ml ≤ off ∧ 2147483647 < off - ml ∧ (4294967287 < off - ml ∨ mp < off - ml)) ∨
+       (off < ml ∧ 2147483647 < ml - off)) := by
   unfold planRewrite
   dsimp only
   have e1 : padHeaderSize = 8 := rfl
@@ -85,7 +86,7 @@ theorem C01_plan_refused (ml off : Nat) :
     · split at h
       · simp at h
       · right; omega
-  · rintro (⟨h1, h2⟩ | ⟨h1, h2⟩)
+  · rintro (⟨h1, h2, h3⟩ | ⟨h1, h2⟩)
     · refine ⟨.unsupportedBoxLayout, ?_⟩
       rw [if_pos h1, if_neg (by omega), if_neg (by omega), if_neg (by omega)]
     · refine ⟨.unsupportedBoxLayout, ?_⟩
@@ -147,11 +148,12 @@ theorem C01_callsite (n : Nat) (v : BitVec n) (d : BitVec n) :
     symm; rw [decide_eq_true_iff]; omega
 
 -- Non-vacuity: concrete evaluations of the plan and of a table rewrite.
-example : planRewrite 100 95 = .ok (0, some 5) := by decide                 -- forward move
-example : planRewrite 100 105 = .ok (0, some (-5)) := by decide             -- gap 5: no free box fits
-example : planRewrite 100 108 = .ok (8, none) := by decide                  -- gap 8: padded
-example : planRewrite 100 100 = .ok (0, none) := by decide
-example : planRewrite 100 (100 + 4294967288) = .error .unsupportedBoxLayout := by decide
+example : planRewrite 1000 100 95 = .ok (0, some 5) := by decide                 -- forward move
+example : planRewrite 1000 100 105 = .ok (0, some (-5)) := by decide             -- gap 5: no free box fits
+example : planRewrite 1000 100 108 = .ok (8, none) := by decide                  -- gap 8: padded
+example : planRewrite 1000 100 100 = .ok (0, none) := by decide
+example : planRewrite 50 100 200 = .ok (0, some (-100)) := by decide           -- gap 100 above the limit 50: displaced, not padded
+example : planRewrite 1000 100 (100 + 4294967288) = .error .unsupportedBoxLayout := by decide
 example : displaceCo (-5) ⟨4, 2, [0,0,0,5, 0,0,1,0]⟩ = .ok (⟨4, 2, [0,0,0,0, 0,0,0,251]⟩, ()) := by decide
 example : displaceCo (-6) ⟨4, 2, [0,0,0,5, 0,0,1,0]⟩ = .err .invalidInput := by decide
 example : displaceCo 1 ⟨4, 1, [255,255,255,255]⟩ = .err .invalidInput := by decide
